@@ -81,7 +81,7 @@ def drop_point_histories(rnd, n):
 
 def run(ck):
     vlib.import_repo()
-    ck.build(["brokerclient", "brokerclienthook", "brokerclientsync"])
+    ck.build(["brokerclient", "brokerclienthook", "brokerclientsync", "brokerclientwrite"])
     ck.props()
     rnd = random.Random(ck.seed)
     thorough = ck.tier == "thorough"
@@ -109,6 +109,8 @@ def run(ck):
     L.sync_connect_part(ck, rnd, 400 * (10 if thorough else 1), THEOREMS)
     L.reentrant_part(ck, rnd, 400 * (10 if thorough else 1), THEOREMS)
     L.tree_part(ck, rnd, 600 * (10 if thorough else 1), THEOREMS)
+
+    L.write_part(ck, rnd, 400 * (10 if thorough else 1), ["C10_write_failure_reachable", "C10_write_failure_never_resent"])
 
     # ---- finding F-C10-1 (repaired by 7c12cf4): the witness is replayed on every run as a regression probe
     observed, fev, fhooks, fouts = L.probe_f_c10_1()
@@ -140,7 +142,7 @@ def run(ck):
         "hand-written Gallina model Model/BrokerClient.v stands for afkak/brokerclient.py:44-79,148-462 (tie = this run's differential correspondence, not a proof)",
         "Twisted (Deferred, Clock, deferLater, maybeDeferred) is exercised, not verified; that a reactor fires the back-off timer after the delay it was given is runtime behaviour: the model carries the failure COUNT handed to the retry policy, the driver checks the float bit for bit",
         "the retry policy is a parameter (any callable that returns a number); jitter of afkak's default policy is outside the statement; a policy or endpoint factory that RAISES is outside the model and not generated (a raising retryPolicy leaves self.connector a fired Deferred: the real client would never reconnect, C10_never_stuck says nothing about it)",
-        "request payload bytes are outside the model; sendString/transport.write assumed not to raise (brokerclient.py:370-373 not modelled)",
+        "request payload bytes are outside the model; a write that raises inside _sendRequest is modelled by Model/BrokerClientWrite.v as a per-request oracle (str payload), C10_write_failure_*; user callbacks that raise are driven (no model event, traces must agree)",
         "endpoints whose connect() completes synchronously are modelled by Model/BrokerClientSync.v (connect mode per attempt; tryConnect transcribed statement by statement) and PROVED equal to the asynchronous run with the outcome as the next event (C10_sync_step_simulation, C10_sync_run_is_async_run); the real code is compared with both (sync_connect_part); user callbacks/errbacks re-entering the client: inside _sendQueued's and close()'s loops they are INSIDE the extended model Model/BrokerClientHook.v (IConnOk / IClose interleavings, theorems C10_reentrant_*) and its correspondence; in tail positions the driver inserts the call as the next event (checked on the real code; proved for reply callbacks by C06_tail_reentrancy); where user code runs inside close()'s loop the comparison with the model is made only when the order of failing is observably the model's (newest first, no tombstone), otherwise only the order-independent monitors apply (the property does not fix that order)",
         "a cancelled connection attempt fails with CancelledError (bare Deferred) or ConnectingCancelledError (Twisted's stock endpoints): both flavours are generated (policy suffix +cc, drv_brokerclient.CcNet), the model does not distinguish them",
         "events the environment cannot produce (no attempt / transport / Deferred to act on) cannot be applied to the implementation; a timer event with no timer armed is applied as an hour of virtual time passing",
@@ -159,6 +161,8 @@ def replay(rp):
         return L.replay_hook(rp)
     if rp.get("replay_op") == "bc-tree":
         return L.replay_tree(rp)
+    if rp.get("replay_op") == "bc-write":
+        return L.replay_write(rp)
     if rp.get("replay_op") == "bc-sync":
         events = D.unjson(rp["events"])
         im = L.SyncImpl(rp.get("policy", "const"), None, None, list(rp.get("sync_outcomes", [])))
